@@ -294,7 +294,8 @@ def parse_model(ans):
         return None
     n = ans[5]
     outs = set(tuple(ans[6 + 8 * i: 14 + 8 * i]) for i in range(n))
-    return {"deadlock": ans[1], "failure": ans[2], "invalid": ans[3], "nstates": ans[4], "outcomes": outs}
+    return {"deadlock": ans[1], "failure": ans[2], "invalid": ans[3], "nstates": ans[4], "outcomes": outs,
+            "ntrans": ans[6 + 8 * n] if len(ans) > 6 + 8 * n else 0}
 
 
 def run_models_exe(exe, progs):
@@ -306,6 +307,32 @@ def run_models_exe(exe, progs):
 
 def run_models(progs):
     return [parse_model(a) for a in fw.run_model("c38", "run_c38", [[FUEL] + encode(p) for p in progs])]
+
+
+def classify(m):
+    err = bool(m["deadlock"] or m["failure"])
+    if err:
+        return "error+outcomes" if m["outcomes"] else "always-error"
+    return "several-outcomes" if len(m["outcomes"]) >= 2 else "one-outcome"
+
+
+QUOTA = {"several-outcomes": 0.4, "error+outcomes": 0.35, "one-outcome": 0.1, "always-error": 0.15}
+
+
+def select(progs, models, n):
+    """keep n programs, favouring those where the schedule matters (several outcomes, errors on some schedules only)"""
+    by = {k: [] for k in QUOTA}
+    for p, m in zip(progs, models):
+        if m is None or m["invalid"]:
+            continue
+        by[classify(m)].append((p, m))
+    out = []
+    for k, q in QUOTA.items():
+        out += by[k][:max(1, int(round(q * n)))]
+        by[k] = by[k][max(1, int(round(q * n))):]
+    rest = [x for k in QUOTA for x in by[k]]
+    out += rest[:max(0, n - len(out))]
+    return out[:n]
 
 
 # ------------------------------------------------------------------------------------------------ simgrid-mc
@@ -359,10 +386,12 @@ class Runner:
             pr.communicate()
             return {"rc": 124, "outs": set(), "dl": False, "af": False, "log": ""}
         outs = set()
+        nlines = 0
         for l in so.split("\n"):
             if l.startswith("MC3OUT "):
                 outs.add(tuple(int(t) for t in l.split()[1:9]))
-        return {"rc": rc, "outs": outs, "dl": "DEADLOCK DETECTED" in se, "af": "PROPERTY NOT VALID" in se,
+                nlines += 1
+        return {"rc": rc, "outs": outs, "nlines": nlines, "dl": "DEADLOCK DETECTED" in se, "af": "PROPERTY NOT VALID" in se,
                 "traces": (re.findall(r"(\d+) explored traces", se) or ["?"])[-1], "log": se[-1500:]}
 
     def write_prog(self, p):
@@ -403,9 +432,12 @@ def run_many(runner, items, modes):
 # ------------------------------------------------------------------------------------------------ oracle
 
 def judge(p, m, res):
-    """returns a list of (kind, signature, text): kind 'fail' = the checker misses something the real program does
-    (witnessed by another run of the real program) or reports something wrong; 'mismatch' = implementation and
-    reference disagree without an independent witness; 'skip' = run not usable."""
+    """Compare every run with the verified reference.  Returns a list of verdicts
+         {"kind": "fail" | "mismatch" | "skip", "what": <defect kind>, "combo", "mode", "text"}
+    fail     = simgrid-mc misses an outcome / an error that the reference reaches AND that another exploration of the same
+               real program did reach or report (so the real program does it), or it crashes, or exits 0 after an error;
+    mismatch = implementation and reference disagree without such an independent witness (the tie is broken);
+    skip     = run not usable (timeout, program rejected explicitly by the checker)."""
     M = m["outcomes"]
     U = set()
     seen_dl = seen_af = False
@@ -414,59 +446,288 @@ def judge(p, m, res):
         seen_dl |= r["dl"] or r["rc"] == 2
         seen_af |= r["af"] or r["rc"] == 1
     v = []
-    feat = features(p)
     merr = bool(m["deadlock"] or m["failure"])
+
+    def add(kind, what, combo, mode, text):
+        where = "reduction=%s explorer=%s strategy=%s%s" % (combo + ("" if mode == "A" else " max-errors=-1",))
+        v.append({"kind": kind, "what": what, "combo": combo, "mode": mode, "text": where + ": " + text})
+
     for (combo, mode), r in sorted(res.items()):
-        red, algo, strat = combo
-        tag = "%s-%s%s" % (red, algo, "" if mode == "A" else "-maxerr")
-        where = "reduction=%s explorer=%s strategy=%s%s" % (red, algo, strat, "" if mode == "A" else " max-errors=-1")
         rc = r["rc"]
         if rc == 124:
-            v.append(("skip", "timeout", where))
+            add("skip", "timeout", combo, mode, "timeout")
             continue
         if rc not in (0, 1, 2):
-            if "no specialized computation" in r["log"] or "not supported" in r["log"]:
-                v.append(("skip", "rejected", where))
+            if "no specialized computation" in r["log"] or "not supported yet" in r["log"]:
+                add("skip", "rejected", combo, mode, "program rejected by the checker")
             else:
-                v.append(("fail", "checker-crash-%s-%s" % (tag, feat), "%s: simgrid-mc ended with status %d: %s" % (where, rc, r["log"][-300:])))
+                add("fail", "checker-crash", combo, mode, "simgrid-mc ended with status %d: %s" % (rc, " ".join(r["log"][-400:].split())))
             continue
         extra = r["outs"] - M
         if extra:
-            v.append(("mismatch", "outcome-not-in-reference", "%s printed outcome(s) %s that the reference semantics cannot reach" % (where, sorted(extra)[:3])))
+            add("mismatch", "outcome-not-in-reference", combo, mode,
+                "printed outcome(s) %s that the reference semantics cannot reach" % sorted(extra)[:3])
         missing = M - r["outs"]
-        complete_expected = (not merr) or mode == "B"
-        if complete_expected and missing:
+        if ((not merr) or mode == "B") and missing:
             wit = sorted(missing & U)
             if wit:
-                v.append(("fail", "missed-outcome-%s-%s" % (tag, feat),
-                          "%s explored %s trace(s) and never reached outcome %s, which the reference semantics reaches and "
-                          "another exploration of the same program did reach (%d of %d outcomes found)" % (where, r.get("traces"), wit[0], len(r["outs"] & M), len(M))))
+                add("fail", "missed-outcome", combo, mode,
+                    "explored %s trace(s) and never reached outcome %s, which the reference semantics reaches and another exploration "
+                    "of the same program did reach (%d of %d outcomes found)" % (r.get("traces"), wit[0], len(r["outs"] & M), len(M)))
             else:
-                v.append(("mismatch", "reference-outcome-unwitnessed", "%s misses outcome %s of the reference; no run of the real program reached it" % (where, sorted(missing)[0])))
-        # verdict
+                add("mismatch", "reference-outcome-unwitnessed", combo, mode,
+                    "misses outcome %s of the reference; no run of the real program reached it" % (sorted(missing)[0],))
+        rep_dl = r["dl"] or (mode == "A" and rc == 2)
+        rep_af = r["af"] or rc == 1
         if not merr:
-            if rc != 0 or r["dl"] or r["af"]:
-                v.append(("mismatch" if not (seen_dl and r["dl"] or seen_af and r["af"]) else "mismatch", "error-not-in-reference",
-                          "%s reports %s (status %d) but the reference semantics has no reachable deadlock/assertion failure" % (where, "deadlock" if (r["dl"] or rc == 2) else "assertion failure", rc)))
-        else:
-            rep_dl = r["dl"] or (mode == "A" and rc == 2)
-            rep_af = r["af"] or rc == 1
-            if rep_dl and not m["deadlock"]:
-                v.append(("mismatch", "deadlock-not-in-reference", "%s reports a deadlock, the reference has none" % where))
-            if rep_af and not m["failure"]:
-                v.append(("mismatch", "failure-not-in-reference", "%s reports an assertion failure, the reference has none" % where))
-            if not rep_dl and not rep_af:
-                kind = "deadlock" if m["deadlock"] else "assertion-failure"
-                if (m["deadlock"] and seen_dl) or (m["failure"] and seen_af):
-                    v.append(("fail", "missed-%s-%s-%s" % (kind, tag, feat), "%s ends with status %d and reports no error after %s trace(s), but a %s is reachable "
-                              "(reference semantics, and reported by another exploration of the same program)" % (where, rc, r.get("traces"), kind)))
-                else:
-                    v.append(("mismatch", "reference-error-unwitnessed", "%s reports no error; the reference reaches a %s that no run reported" % (where, kind)))
-            elif rc == 0:
-                v.append(("fail", "exit-status-0-despite-error-%s" % tag, "%s logs an error but exits with status 0" % where))
-            elif mode == "B":
-                if m["deadlock"] and not rep_dl and seen_dl:
-                    v.append(("fail", "missed-deadlock-%s-%s" % (tag, feat), "%s reports assertion failures only; a deadlock is reachable too" % where))
-                if m["failure"] and not rep_af and seen_af:
-                    v.append(("fail", "missed-assertion-failure-%s-%s" % (tag, feat), "%s reports deadlocks only; an assertion failure is reachable too" % where))
+            if rc != 0 or rep_dl or rep_af:
+                add("mismatch", "error-not-in-reference", combo, mode,
+                    "reports %s (status %d) but the reference semantics has no reachable deadlock/assertion failure" % ("a deadlock" if rep_dl else "an assertion failure", rc))
+            continue
+        if rep_dl and not m["deadlock"]:
+            add("mismatch", "deadlock-not-in-reference", combo, mode, "reports a deadlock, the reference has none")
+        if rep_af and not m["failure"]:
+            add("mismatch", "failure-not-in-reference", combo, mode, "reports an assertion failure, the reference has none")
+        if not rep_dl and not rep_af:
+            what = "missed-deadlock" if m["deadlock"] else "missed-assertion-failure"
+            if (m["deadlock"] and seen_dl) or (m["failure"] and seen_af):
+                add("fail", what, combo, mode, "ends with status %d and reports no error after %s trace(s), but an error is reachable "
+                    "(reference semantics; reported by another exploration of the same program)" % (rc, r.get("traces")))
+            else:
+                add("mismatch", "reference-error-unwitnessed", combo, mode, "reports no error; the reference reaches one that no run reported")
+        elif rc == 0:
+            add("fail", "exit-status-0-despite-error", combo, mode, "logs an error but exits with status 0")
+        elif mode == "B":
+            if m["deadlock"] and not rep_dl and seen_dl:
+                add("fail", "missed-deadlock", combo, mode, "reports assertion failures only; a deadlock is reachable too")
+            if m["failure"] and not rep_af and seen_af:
+                add("fail", "missed-assertion-failure", combo, mode, "reports deadlocks only; an assertion failure is reachable too")
     return v
+
+
+def uses(p, codes):
+    return any(o[0] in codes for ops in p["actors"] for o in ops)
+
+
+def known_region(p, combo, mode, what):
+    """Regions where the pinned simgrid-mc is known to be defective (KNOWN_FINDINGS.txt); everything else is strict."""
+    red, algo, strat = combo
+    missed = what.startswith("missed-")
+    if red == "udpor":
+        return {"exit-status-0-despite-error": "udpor-exit-status-0-on-error", "checker-crash": "udpor-crash"}.get(what, "udpor-incomplete")
+    if algo == "BeFS" and strat == "uniform":
+        if what == "checker-crash" and red == "odpor":
+            return "odpor-befs-uniform-crash"
+        if missed:
+            return "befs-uniform-incomplete"
+    if algo == "DFS" and strat == "uniform" and red in ("dpor", "sdpor", "odpor") and missed:
+        return "dfs-uniform-%s-incomplete" % red
+    if red == "odpor" and algo == "BeFS" and missed and uses(p, {RANDOM}):
+        return "odpor-befs-random-incomplete"
+    if mode == "B" and missed and ((algo == "BeFS" and red != "none") or red == "odpor"):
+        return "maxerr-%s-%s-incomplete" % (red, algo)
+    return None
+
+
+def strict_sig(p, v):
+    red, algo, strat = v["combo"]
+    return "%s-%s-%s-%s%s-%s" % (v["what"], red, algo, strat, "" if v["mode"] == "A" else "-maxerr", features(p))
+
+
+# ------------------------------------------------------------------------------------------------ shrinking
+
+WITNESS = ("none", "DFS", "none")
+UNWITNESSED = {"missed-outcome": "reference-outcome-unwitnessed", "missed-deadlock": "reference-error-unwitnessed",
+               "missed-assertion-failure": "reference-error-unwitnessed"}
+
+
+def fails_same(runner, model_fn, p, combo, mode, what):
+    """does program p still show this kind of failure for this combo?  (brute force is the witness when it is affordable;
+    while shrinking, the verified reference alone is accepted as well)"""
+    if not well_formed(p) or sum(1 for a in p["actors"] if n_transitions(a)) < 1:
+        return False
+    m = model_fn([p])[0]
+    if m is None or m["invalid"]:
+        return False
+    if mode == "B" and not (m["deadlock"] or m["failure"]):
+        return False
+    cs = [combo] + ([WITNESS] if interleavings(p) <= NONE_LIMIT and combo != WITNESS else [])
+    res = run_many(runner, [(p, m, cs)], (mode,))[0]
+    for v in judge(p, m, res):
+        if v["combo"] != combo or v["mode"] != mode:
+            continue
+        if (v["kind"] == "fail" and v["what"] == what) or (v["kind"] == "mismatch" and v["what"] == UNWITNESSED.get(what)):
+            return True
+    return False
+
+
+def shrink(runner, model_fn, p, combo, mode, what, budget=60):
+    """greedy: drop actors, then runs of ops, then single ops, while the failure persists"""
+    import copy
+    cur = copy.deepcopy(p)
+    steps = 0
+    changed = True
+    while changed and steps < budget:
+        changed = False
+        cands = []
+        for a in range(len(cur["actors"])):
+            if len(cur["actors"]) > 1:
+                q = copy.deepcopy(cur)
+                del q["actors"][a]
+                for ops in q["actors"]:                 # renumber join targets
+                    for o in ops:
+                        if o[0] == JOIN:
+                            o[1] = o[1] - 1 if o[1] > a else (99 if o[1] == a else o[1])
+                if all(o[0] != JOIN or o[1] != 99 for ops in q["actors"] for o in ops):
+                    cands.append(q)
+        for a, ops in enumerate(cur["actors"]):
+            for i in range(len(ops)):
+                for l in (4, 3, 2, 1):
+                    if i + l <= len(ops):
+                        q = copy.deepcopy(cur)
+                        del q["actors"][a][i:i + l]
+                        for j in range(i - 1, -1, -1):  # keep TryLock skip counts consistent
+                            o = q["actors"][a][j]
+                            if o[0] == TRYLOCK and j + o[2] >= i:
+                                o[2] = max(0, o[2] - l)
+                        cands.append(q)
+        cands.sort(key=lambda q: sum(len(x) for x in q["actors"]))
+        for q in cands:
+            steps += 1
+            if steps > budget:
+                break
+            if fails_same(runner, model_fn, q, combo, mode, what):
+                cur = q
+                changed = True
+                break
+    return cur
+
+
+# ------------------------------------------------------------------------------------------------ the check
+
+def plan(p, idx, with_uniform):
+    cs = combos(p, full=False)
+    if with_uniform:
+        cs += [c for c in combos(p, full=True) if c[2] == "uniform"]
+    return cs
+
+
+def run(ctx):
+    import json, random
+    ctx.level = "model_checking"
+    ctx.simgrid(["simgrid", "simgrid-mc"])
+    ctx.prove()
+    prog_exe = fw.build_harness("mc3_prog")
+    platform = os.path.join(fw.REPO, "examples/platforms/small_platform.xml")
+    workdir = os.path.join(fw.B, "run", "c38")
+    runner = Runner(fw.SIMGRID_MC, prog_exe, platform, workdir, timeout=ctx.n(30, 60))
+    ctx.cov["rule"] = ("programs of 2-4 actors x <=8 ops over mutexes (lock/try_lock/unlock), semaphores, barriers, mailboxes (put/get, "
+                       "put_async/get_async + wait), join, MC_random, with MC_assert on lock-protected shared variables and on received values; "
+                       "race free by construction; 6x candidates are generated per kept program and ranked by the verified reference so that "
+                       "most kept programs are schedule sensitive.  non-trivial = the reference says the schedule matters: at least two terminal "
+                       "outcomes, or an error reachable on some schedules while others complete.  distinct = distinct program text")
+    ctx.assumptions += [
+        "the reference semantics McRef.v is hand-written from MutexImpl/SemaphoreImpl/BarrierImpl/CommImpl/ActorJoinSimcall in MC mode; it is tied "
+        "to the rebuilt kernel only through these differential runs (every outcome printed by the real program must be reachable in the "
+        "reference, and the brute-force exploration `reduction:none` + DFS must print exactly the reference's outcomes)",
+        "a missing outcome/error is charged to the checker only when another exploration of the same real program exhibited it",
+        "not covered: condition variables, iprobe/test/waitany, actor creation during the run, sthread programs, the parallel explorer, "
+        "communication-determinism mode; timeouts of simgrid-mc runs are skipped and counted",
+        "the soundness of the DPOR/SDPOR/ODPOR/UDPOR race analyses is checked per program, not proved"]
+
+    if ctx.replay:
+        case = json.load(open(ctx.replay))["case"]
+        items = [(case["prog"], [tuple(case["combo"]), WITNESS] if case.get("combo") else None, True)]
+    else:
+        n = ctx.n(22, 260)
+        cands = [gen_prog(ctx.rng, limit=ctx.n(700, 1500)) for _ in range(6 * n)]
+        ms = run_models(cands)
+        sel = select(cands, ms, n)
+        items = [(p, None, i % 3 == 0) for i, p in enumerate(CORPUS + [x[0] for x in sel])]
+    progs = [it[0] for it in items]
+    models = run_models(progs)
+
+    work, dist = [], {"skipped-invalid-or-too-big": 0}
+    tot_states = tot_trans = 0
+    for (p, forced, uni), m in zip(items, models):
+        if m is None or m["invalid"]:
+            dist["skipped-invalid-or-too-big"] += 1
+            continue
+        cs = forced or plan(p, 0, uni)
+        if forced and interleavings(p) > NONE_LIMIT:
+            cs = [c for c in cs if c != WITNESS or tuple(forced[0]) == WITNESS]
+        work.append((p, m, cs))
+        tot_states += m["nstates"]
+        tot_trans += m["ntrans"]
+        dist[classify(m)] = dist.get(classify(m), 0) + 1
+        dist["profile:" + p.get("profile", "?")] = dist.get("profile:" + p.get("profile", "?"), 0) + 1
+    # mode A everywhere; mode B (max-errors=-1: keep exploring after an error) for the strategy-none combos
+    resA = run_many(runner, work, ("A",))
+    workB = [(p, m, [c for c in cs if c[2] == "none"]) for p, m, cs in work]
+    resB = run_many(runner, [(p, m, cs if (m["deadlock"] or m["failure"]) else []) for p, m, cs in workB], ("B",))
+
+    model_fn = run_models
+    nruns = traces = skipped = rejected = 0
+    strict_fail = {}
+    for (p, m, cs), ra, rb in zip(work, resA, resB):
+        res = dict(ra)
+        res.update(rb)
+        nruns += len(res)
+        traces += sum(r.get("nlines", 0) for r in res.values())
+        nontriv = len(m["outcomes"]) >= 2 or ((m["deadlock"] or m["failure"]) and len(m["outcomes"]) >= 1)
+        ctx.case(encode(p), nontriv, {"program": show(p), "reference": {"states": m["nstates"], "deadlock": bool(m["deadlock"]),
+                 "assertion_failure": bool(m["failure"]), "outcomes": sorted(m["outcomes"])[:6]},
+                 "runs": {"%s/%s/%s/%s" % (c + (md,)): {"status": r["rc"], "outcomes": len(r["outs"]), "traces": r.get("traces")} for (c, md), r in sorted(res.items())[:6]}}
+                 if nontriv else None)
+        for v in judge(p, m, res):
+            case = {"prog": p, "combo": list(v["combo"]), "mode": v["mode"], "encoded": encode(p), "shown": show(p)}
+            if v["kind"] == "skip":
+                skipped += v["what"] == "timeout"
+                rejected += v["what"] == "rejected"
+            elif v["kind"] == "mismatch":
+                ctx.mismatch("reference-vs-simgrid-mc:" + v["what"], v["text"] + " on " + show(p), case)
+            else:
+                reg = known_region(p, v["combo"], v["mode"], v["what"])
+                if reg:
+                    ctx.fail(reg, v["text"] + " on " + show(p), case)
+                else:
+                    strict_fail.setdefault((v["what"], v["combo"], v["mode"]), []).append((p, v))
+    # shrink the unknown failures (a few), then report them
+    for k, ((what, combo, mode), lst) in enumerate(sorted(strict_fail.items(), key=lambda kv: str(kv[0]))):
+        lst.sort(key=lambda pv: sum(len(a) for a in pv[0]["actors"]))
+        p, v = lst[0]
+        q = shrink(runner, model_fn, p, combo, mode, what, budget=ctx.n(25, 80)) if k < 4 and not ctx.replay else p
+        ctx.fail(strict_sig(q, v), v["text"] + " on " + show(p) + ("  [shrunk to: %s]" % show(q) if q is not p else ""),
+                 {"prog": q, "combo": list(combo), "mode": mode, "encoded": encode(q), "shown": show(q), "original": show(p)})
+    ctx.cov["states"] = tot_states
+    ctx.cov["transitions"] = tot_trans
+    ctx.cov["traces_validated_against_impl"] = traces
+    ctx.cov["input_distribution"] = dist
+    ctx.cov["simgrid_mc_runs"] = nruns
+    ctx.cov["runs_timed_out"] = int(skipped)
+    ctx.cov["runs_rejected_by_checker"] = int(rejected)
+    ctx.cov["explanation"] = ("states/transitions = size of the state graphs enumerated by the verified reference explorer over all programs of this "
+                              "run; traces_validated_against_impl = complete executions of the real program under simgrid-mc whose printed "
+                              "outcome was checked to be a reachable terminal outcome of the reference")
+    shutil.rmtree(workdir, ignore_errors=True)
+
+
+META = {
+    "level": "model_checking",
+    "text": "Reference = an executable interleaving semantics of small S4U programs at the granularity of the checker's transitions (McRef.v) and a "
+            "DFS explorer over it, proved sound AND complete in Coq for every program (C38_ref_states/complete/deadlock/failure: the explorer returns "
+            "exactly the outcomes of the reachable terminal states and flags a deadlock / MC_assert failure iff one is reachable, fuel exhaustion "
+            "excluded); plus the classical sleep-set theorem on an abstract LTS with a commuting independence relation (C38_sleepset_sound/complete). "
+            "Each generated race-free program is run by the real S4U API under the rebuilt simgrid-mc for reduction none/dpor/sdpor/odpor x DFS/BeFS x "
+            "strategy none/uniform (+udpor on its subset), stopping at the first error and with max-errors=-1; the set of outcomes printed by complete "
+            "executions and the verdict (exit status, DEADLOCK DETECTED / PROPERTY NOT VALID) must equal the reference's.",
+    "note": "Soundness of the DPOR/SDPOR/ODPOR/UDPOR race analyses is NOT mechanised: it is checked per program against the verified-complete reference "
+            "(only the sleep-set core is a theorem). The reference semantics is hand-written and tied to the kernel by the same differential runs "
+            "(brute force must reproduce it exactly). Not covered: condition variables, iprobe/test/waitany, dynamic actor creation, sthread "
+            "programs, the parallel explorer. Known defects of the pinned checker are listed in KNOWN_FINDINGS.txt (BeFS with the uniform strategy, "
+            "DFS+uniform with dpor/sdpor/odpor, odpor+BeFS with MC_random, exploration after an accepted error with BeFS/odpor, udpor) and are judged "
+            "by the oracle only.",
+    "technique": "Coq proof of a reference explorer (soundness+completeness w.r.t. inductive reachability) + sleep-set theorem; extracted reference "
+                 "compared per generated program with simgrid-mc runs of a generic S4U interpreter",
+    "claimed": False,
+}
